@@ -508,3 +508,22 @@ mut("C17", "r4-length-check-relaxed", "updater/fetch.go",
     "\tif resp.ContentLength != n {", "\tif resp.ContentLength >= 0 && resp.ContentLength != n {", "C17-R4|bytes written == Content-Length", occurrence=1)
 mut("C17", "r4-require-mismatch-published", "updater/fetch.go",
     "\t\t\tcase SignaturePolicyRequire:\n\t\t\t\treturn errors.New(\"file does not match signed checksum\")", "\t\t\tcase SignaturePolicyRequire:\n\t\t\t\tlog.Errorf(\"%s: file does not match signed checksum\", reg.Name)", "C17-R4|checksum policy")
+
+# ---- C18 -------------------------------------------------------------------
+mut("C18", "r1-fstree-bare-prefix", "database/storage/fstree/fstree.go",
+    "\tscope := fst.basePath\n\tif !strings.HasSuffix(scope, string(filepath.Separator)) {\n\t\tscope += string(filepath.Separator)\n\t}\n\treturn strings.HasPrefix(path, scope)", "\treturn strings.HasPrefix(path, fst.basePath)", "C18-R1|isInScope", canary=True, comment="reverts fix a8352f0")
+mut("C18", "r1-scan-bare-prefix", "updater/storage.go",
+    "\t\tif root != reg.storageDir.Path && !strings.HasPrefix(root, scope) {", "\t\tif !strings.HasPrefix(root, reg.storageDir.Path) {", "C18-R1|ScanStorage", comment="reverts fix d2c6c61")
+mut("C18", "r1-scan-check-before-abs", "updater/storage.go",
+    "\t\tvar err error\n\t\troot, err = filepath.Abs(root)\n\t\tif err != nil {\n\t\t\treturn err\n\t\t}\n\t\tscope := reg.storageDir.Path\n\t\tif !strings.HasSuffix(scope, string(filepath.Separator)) {\n\t\t\tscope += string(filepath.Separator)\n\t\t}\n\t\tif root != reg.storageDir.Path && !strings.HasPrefix(root, scope) {\n\t\t\treturn errors.New(\"supplied scan root path not within storage\")\n\t\t}",
+    "\t\tscope := reg.storageDir.Path\n\t\tif !strings.HasSuffix(scope, string(filepath.Separator)) {\n\t\t\tscope += string(filepath.Separator)\n\t\t}\n\t\tif root != reg.storageDir.Path && !strings.HasPrefix(root, scope) {\n\t\t\treturn errors.New(\"supplied scan root path not within storage\")\n\t\t}\n\t\tvar err error\n\t\troot, err = filepath.Abs(root)\n\t\tif err != nil {\n\t\t\treturn err\n\t\t}", "C18-R1|checked path is canonical")
+mut("C18", "r1-unpack-clean-strips-sep", "updater/unpacking.go",
+    "\t\tif !strings.HasPrefix(dstPath, tmpDir+string(filepath.Separator)) {", "\t\tif !strings.HasPrefix(dstPath, filepath.Clean(tmpDir+string(filepath.Separator))) {", "C18-R1|prefix is separator-terminated")
+mut("C18", "r1-ensureabs-no-dotdot", "utils/structure.go",
+    "\tif relPath == \"..\" || strings.HasPrefix(relPath, \"..\"+string(filepath.Separator)) {\n\t\treturn fmt.Errorf(`path \"%s\" is outside of DirStructure scope`, dirPath)\n\t}\n", "", "C18-R1|EnsureAbsPath", comment="reverts fix c329e89")
+mut("C18", "r2-fstree-delete-direct-join", "database/storage/fstree/fstree.go",
+    "func (fst *FSTree) Delete(key string) error {\n\tdstPath, err := fst.buildFilePath(key, true)\n\tif err != nil {\n\t\treturn err\n\t}\n", "func (fst *FSTree) Delete(key string) error {\n\tdstPath := filepath.Join(fst.basePath, key)\n\tvar err error\n", "C18-R2|Delete")
+mut("C18", "r2-unpack-no-guard", "updater/unpacking.go",
+    "\t\tif !strings.HasPrefix(dstPath, tmpDir+string(filepath.Separator)) {\n\t\t\terr = fmt.Errorf(\"archive file %s would be extracted outside of the unpack directory\", file.Name)\n\t\t\treturn err\n\t\t}\n", "", "C18-R2|extract entry", comment="reverts fix 7d20799")
+mut("C18", "r2-buildfilepath-returns-raw", "database/storage/fstree/fstree.go",
+    "\t// return\n\treturn dstPath, nil\n}", "\t// return\n\treturn fst.basePath + string(filepath.Separator) + key, nil\n}", "C18-R2|returns the checked path")
